@@ -14,6 +14,7 @@ RULE = ("the full configuration cross product {scale} x {no/some/all-but-one "
         "maxfev, maxiter, target, callback, feasibility) plus NaN/inf plans; "
         "non-trivial = returned point has positive true violation / NaN-inf "
         "involved / an active constraint; distinct = cell x status")
+RULE += ("  Also: limits of mixed magnitudes inside one constraint object (a narrow two-sided component next to limits of 1e4..1e300).")
 ASSUMPTIONS = [
     "true maxcv recomputed by the harness in user variables from the user's "
     "objects and the raw values its spies logged",
